@@ -263,13 +263,13 @@ fn run(ctx: &Ctx) {
     if !ctx.run_enum("every_calendar_date", "exhaustive: every date 1899-01-01..2102-12-31 through TaxPeriod::from_date vs an independent month/day rule (one case = one calendar year)", years, check_dates) {
         return;
     }
-    if !ctx.run_prop("any_years", RULE, ctx.cases(1200, 100_000), strat_any, check) {
+    if !ctx.run_prop("any_years", RULE, ctx.cases(1200, 400_000), strat_any, check) {
         return;
     }
-    if !ctx.run_prop("range_edges", RULE, ctx.cases(400, 30_000), strat_edges, check) {
+    if !ctx.run_prop("range_edges", RULE, ctx.cases(400, 120_000), strat_edges, check) {
         return;
     }
-    if !ctx.run_prop("embedded_table", RULE, ctx.cases(600, 60_000), strat_embedded, check) {
+    if !ctx.run_prop("embedded_table", RULE, ctx.cases(600, 240_000), strat_embedded, check) {
         return;
     }
     crate::props::proc_checks::c07_cli(ctx);
